@@ -481,7 +481,9 @@ def replay_events(check, events):
         elif e[0] == "known":
             check.known(e[1], e[2])
         elif e[0] == "violation":
-            if len(check.violations) < 50:
+            # at most 50 of each kind are kept: a flood of broken-correspondence reports must not crowd out a failing input
+            weak = not e[1].get("failing_input", True)
+            if sum(1 for v in check.violations if (not v["failing_input_found"]) == weak) < 50:
                 check.violation(**e[1])
         elif e[0] == "note":
             if len(check.notes) < 50:
@@ -628,7 +630,9 @@ def language_cases(lang, thorough, depth, mdepth):
             for pos in POSITIONS:
                 cases.append(make_case([(pos, ch, leaf)], lang, False))
                 if len(ch) <= mdepth:
-                    cases.append(make_case([(pos, ch, leaf)], lang, True, trigger_first=(len(cases) % 2 == 0)))
+                    # both generation orders: the crate with the trigger before and after the neutral crate
+                    cases.append(make_case([(pos, ch, leaf)], lang, True, trigger_first=True))
+                    cases.append(make_case([(pos, ch, leaf)], lang, True, trigger_first=False))
     yield "alone", cases
     # together: pairs
     small = [(ch, leaf) for ch in [(), ("Vec",), ("Vec", "Vec")] for leaf in leaves]
